@@ -35,6 +35,28 @@ var rHintProviders = &Rule{
 		for k := range want {
 			c.Fail(k, token.NoPos, "provider type not found")
 		}
+		// ... and nobody else: a method promoted from an embedded struct counts (the accessors ask by interface)
+		wantAll := map[string]string{"hintdetail.withHint": "ErrorHint", "issuelink.withIssueLink": "ErrorHint", "issuelink.unimplementedError": "ErrorHint", "assert.withAssertionFailure": "ErrorHint", "hintdetail.withDetail": "ErrorDetail"}
+		for _, et := range cs.ErrTypes {
+			ms := types.NewMethodSet(types.NewPointer(et.Named))
+			for _, m := range []string{"ErrorHint", "ErrorDetail"} {
+				sel := ms.Lookup(nil, m)
+				if sel == nil {
+					sel = ms.Lookup(et.Named.Obj().Pkg(), m)
+				}
+				if sel == nil {
+					continue
+				}
+				sig, isSig := sel.Type().(*types.Signature)
+				if !isSig || sig.Params().Len() != 0 || sig.Results().Len() != 1 {
+					continue
+				}
+				if wantAll[et.Name()] == m {
+					continue
+				}
+				c.Fail(et.Name()+" also provides "+m+"()", et.Named.Obj().Pos(), "the type has a method "+m+"() string in its method set (possibly promoted from an embedded struct) although it is not one of the documented providers: GetAll"+strings.TrimPrefix(m, "Error")+"s / Flatten"+strings.TrimPrefix(m, "Error")+"s now list an entry for each such layer")
+			}
+		}
 		// constants used by the standard hints
 		uses := func(fn *ssa.Function, constName string) bool {
 			found := false
